@@ -233,3 +233,13 @@ pub fn classify_cmd(args: &[String]) -> i32 {
     println!("{}", outcome_of(&src, 6, 60));
     0
 }
+
+/// inkmon loadjson <file>: Story::new on the file's text, prints the outcome
+pub fn loadjson_cmd(args: &[String]) -> i32 {
+    let text = std::fs::read_to_string(&args[1]).expect("read");
+    match bladeink::story::Story::new(&text) {
+        Ok(_) => println!("LOAD ok"),
+        Err(e) => println!("LOAD err: {}", crate::util::truncate(&e.to_string(), 200)),
+    }
+    0
+}
